@@ -1,7 +1,7 @@
 (* C41 — the specification oracle of Spec.v accepts every run of the model (all histories, both IP versions). *)
 From Coq Require Import List NArith ZArith Bool Permutation Lia Sorted.
 From Verif.Common Require Import Packet Ipt.
-From Verif.C41 Require Import Model Spec ProofsSet.
+From Verif.C41 Require Import Model Spec ProofsRule ProofsSet.
 Import ListNotations.
 Open Scope N_scope.
 
@@ -226,16 +226,66 @@ Proof.
   - intros a Ha. apply Hm. exact Ha.
 Qed.
 
+(* ------------------------------------------------------------------ the flowtable object's devices *)
+Lemma compact_dedup : forall l, compact l = dedup_sorted l.
+Proof.
+  induction l as [|x l IH]; [reflexivity|]. destruct l as [|y l]; [reflexivity|].
+  change (compact (x :: y :: l)) with (if N.eqb x y then compact (y :: l) else x :: compact (y :: l)).
+  rewrite dedup_cons2, IH. reflexivity.
+Qed.
+
+Lemma mem_In : forall d l, mem d l = true <-> In d l.
+Proof.
+  intros d l. unfold mem. rewrite existsb_exists. split.
+  - intros [x [Hin Heq]]. apply N.eqb_eq in Heq. subst. exact Hin.
+  - intro H. exists d. split; [exact H|apply N.eqb_refl].
+Qed.
+
+Theorem ft_devices_exact : forall ovl wl ext existing d,
+  In d (ft_devices ovl wl ext existing) <-> (In d ovl \/ In d wl \/ In d ext) /\ In d existing.
+Proof.
+  intros. unfold ft_devices, prune_to_existing, recalc_flowtable_devices. rewrite filter_In, compact_dedup.
+  fold (support (ovl ++ wl ++ ext)). rewrite support_In, !in_app_iff. fold (mem d existing). rewrite mem_In. tauto.
+Qed.
+
+Lemma filter_strict : forall (f : N -> bool) l, StronglySorted N.lt l -> StronglySorted N.lt (filter f l).
+Proof.
+  intros f l H. induction H as [|x l Hs IH Hf]; cbn [filter]; [constructor|].
+  destruct (f x); [|exact IH]. constructor; [exact IH|].
+  rewrite Forall_forall in *. intros z Hz. apply filter_In in Hz. apply Hf. apply Hz.
+Qed.
+
+Theorem ft_devices_sorted : forall ovl wl ext existing, StronglySorted N.lt (ft_devices ovl wl ext existing).
+Proof.
+  intros. unfold ft_devices, prune_to_existing, recalc_flowtable_devices. apply filter_strict.
+  rewrite compact_dedup. apply dedup_strict, sortN_sorted.
+Qed.
+
+Lemma ok_ft_devs_model : forall ovl wl ext existing,
+  ok_ft_devs ovl wl ext existing (ft_devices ovl wl ext existing) = true.
+Proof.
+  intros. unfold ok_ft_devs. apply andb_true_iff. split; apply forallb_forall; intros d Hd.
+  - apply ft_devices_exact in Hd. destruct Hd as [Hu He].
+    apply andb_true_iff. split; [apply mem_In; exact He|].
+    destruct Hu as [H|[H|H]]; apply mem_In in H; rewrite H; rewrite ?orb_true_r; reflexivity.
+  - destruct (mem d existing) eqn:E; [|reflexivity]. cbn [implb]. apply mem_In. apply ft_devices_exact.
+    split; [|apply mem_In; exact E]. rewrite !in_app_iff in Hd. tauto.
+Qed.
+
 (* the whole check_case oracle accepts the model's own observables *)
-Theorem model_case_ok : forall ver h nft enabled,
+Theorem model_case_ok : forall ver h nft enabled ovl wl ext existing,
   snd (check_case {| c_ver := ver; c_ops := h; c_outs := run ver init h; c_nft := nft; c_offload := enabled;
                      c_rules := static_offload_rules nft enabled; c_limits := [];
-                     c_prog := progs None (run ver init h) |}) = true.
+                     c_prog := progs None (run ver init h); c_krule := Some offload_rule;
+                     c_ft_declared := ft_declared_after_apply true; c_ft_devs := ft_devices ovl wl ext existing;
+                     c_dev_in := (ovl, wl, ext, existing) |}) = true.
 Proof.
-  intros ver h nft enabled. unfold check_case. cbn [snd c_ver c_ops c_outs c_rules c_limits c_prog].
-  rewrite model_meets_spec, model_meets_spec_programmed. unfold static_offload_rules.
-  destruct (nft && enabled); [|reflexivity].
-  destruct ver; vm_compute; reflexivity.
+  intros ver h nft enabled ovl wl ext existing. unfold check_case.
+  cbn [snd c_ver c_ops c_outs c_rules c_limits c_prog c_krule c_ft_declared c_ft_devs c_dev_in].
+  rewrite model_meets_spec, model_meets_spec_programmed. unfold ok_kernel.
+  rewrite ok_rule_offload_rule, ok_ft_devs_model. cbn [ft_declared_after_apply andb ok_limits forallb].
+  unfold static_offload_rules. destruct (nft && enabled); [|reflexivity].
+  cbn [ok_rules forallb l_rule]. rewrite ok_rule_offload_rule. reflexivity.
 Qed.
 
 (* ------------------------------------------------------------------ the member multiset does not depend on the iteration order *)
